@@ -52,6 +52,7 @@ type wspLink struct {
 
 	mu      sync.Mutex
 	frames  int
+	fresh   []rtspc.Frame
 	dataErr error
 }
 
@@ -156,6 +157,9 @@ func (l *wspLink) pumpData() {
 			return
 		}
 		l.frames++
+		if len(l.fresh) < 4096 {
+			l.fresh = append(l.fresh, *it.Frame)
+		}
 		l.mu.Unlock()
 	}
 }
@@ -166,6 +170,15 @@ func (l *wspLink) dataFrames() (int, error) {
 	l.mu.Lock()
 	defer l.mu.Unlock()
 	return l.frames, l.dataErr
+}
+
+// takeFrames returns the frames that arrived on the data channel since the last call.
+func (l *wspLink) takeFrames() []rtspc.Frame {
+	l.mu.Lock()
+	defer l.mu.Unlock()
+	f := l.fresh
+	l.fresh = nil
+	return f
 }
 
 func (l *wspLink) Send(raw []byte) error {
